@@ -252,6 +252,17 @@ def streams(ck: Check) -> None:
     impl = Impl()
     rng = ck.rng
     ops, ctx = [], []   # ctx: (kind, stream, impl canonical / None, payload)
+    per_key: dict = {}
+
+    def spec(holds, key, what, case):
+        """ck.spec, but at most 3 recorded failures per clause so that the replay shows every clause hit"""
+        if not holds:
+            per_key[key] = per_key.get(key, 0) + 1
+            if per_key[key] > 3:
+                ck.count("more_" + key)
+                ck.spec_checked += 1
+                return False
+        return ck.spec(holds, key, what, case)
 
     def add_lb(stream, W, H, items, verbose, witness=None, name=None):
         """one `lb`/`lbv` op + oracle data; witness = (rows, k, how) of a packing believed feasible"""
@@ -266,7 +277,7 @@ def streams(ck: Check) -> None:
             return None
         if isinstance(inst, str):
             ck.count("ctor_exception")
-            ck.spec(False, "ctor_exception", f"Instance(...) raises {inst} while computing the lower bound of an "
+            spec(False, "ctor_exception", f"Instance(...) raises {inst} while computing the lower bound of an "
                     "instance that passed all argument checks", {"W": W, "H": H, "items": items})
             ctx[-1] = ("lb", stream, iout, (W, H, items, None, verbose))
             return None
@@ -276,10 +287,10 @@ def streams(ck: Check) -> None:
         small = len(items) <= 12
         case = {"W": W, "H": H, "items": items if small else f"<{len(items)} types>", "lower_bound_bins": lb}
         # C: at least the area bound
-        ck.spec(lb >= geo, "lb_lt_geo", f"lower_bound_bins={lb} is below ceil(area/bin area)={geo}", case)
-        ck.spec(lb <= int(inst.n_items), "lb_gt_nitems", f"lower_bound_bins={lb} exceeds the number of items {inst.n_items}", case)
+        spec(lb >= geo, "lb_lt_geo", f"lower_bound_bins={lb} is below ceil(area/bin area)={geo}", case)
+        spec(lb <= int(inst.n_items), "lb_gt_nitems", f"lower_bound_bins={lb} exceeds the number of items {inst.n_items}", case)
         # C: the observers return the instance's bound
-        ck.spec(BinCount(inst).lower_bound() == lb, "bincount_lb",
+        spec(BinCount(inst).lower_bound() == lb, "bincount_lb",
                 f"BinCount.lower_bound()={BinCount(inst).lower_bound()} != lower_bound_bins={lb}", case)
         try:
             mb = InstanceSpace(inst).min_bins
@@ -287,7 +298,7 @@ def streams(ck: Check) -> None:
             mb = None   # InstanceSpace has stricter limits (oriented items, sizes <= 1e9)
             ck.count("instspace_rejects")
         if mb is not None:
-            ck.spec(mb == lb, "min_bins", f"InstanceSpace.min_bins={mb} != lower_bound_bins={lb}", case)
+            spec(mb == lb, "min_bins", f"InstanceSpace.min_bins={mb} != lower_bound_bins={lb}", case)
         ck.count(f"lb_{'damv' if lb > geo else 'geo'}")
         if witness is not None:
             rows, k, how = witness
@@ -397,7 +408,7 @@ def streams(ck: Check) -> None:
             if not ck.compare(stream + ":witness_" + how, line[:600], d.get("feas", mout), "true"):
                 continue
             small = len(rows) <= 16
-            ck.spec(lb <= k, "lb_gt_packing",
+            spec(lb <= k, "lb_gt_packing",
                     f"lower_bound_bins={lb} exceeds the {k} bins of a packing that Pack.Feasible accepts ({how})",
                     {"W": W, "H": H, "items": items if small else f"<{len(items)} types>", "lower_bound_bins": lb,
                      "bins": k, "rows": rows if small else f"<{len(rows)} rows>", "how": how})
